@@ -65,7 +65,8 @@ def isinstance_(ex, v, t, node):
         if r is not None:
             return r
     if name == "str":
-        return isinstance(v, (str, V.SymStr))
+        from .logic import Name
+        return isinstance(v, (str, V.SymStr)) or (isinstance(v, z3.ExprRef) and v.sort() == Name)
     if name == "int":
         return (isinstance(v, int) or (isinstance(v, z3.ArithRef) and v.is_int()))
     if name == "bool":
